@@ -3,7 +3,7 @@
   * ``explicit``: explicit cases for every method with strings from an adversarial alphabet (shell- and curl-significant
     characters: quotes, backslashes incl. doubled / trailing ones next to apostrophes, `$`, backticks, `!`, newlines,
     leading `@`, reserved and non-ASCII URL characters, empty values) in path / query / header / cookie values and in
-    JSON / text / form bodies. The case is sent (``case.call``), the command is built exactly as the reporters do
+    JSON / text / form / multipart bodies. The case is sent (``case.call``), the command is built exactly as the reporters do
     (``case.as_curl_command(headers=dict(response.request.headers))``), executed with ``sh -c`` and the real ``curl``,
     and the two recorded requests are compared.
   * ``engine``: real engine runs (fuzzing / stateful, with and without configured credentials, checks incl. ignored_auth)
@@ -15,6 +15,8 @@ Content-Length, curl's implicit form Content-Type) and the deliberately omitted 
 """
 from __future__ import annotations
 
+import json
+import re
 import subprocess
 
 from hypothesis import strategies as st
@@ -46,7 +48,7 @@ def explicit_case(draw):
         c["headers"] = {"X-H": draw(ASCII_HDR)}
     if draw(st.booleans()):
         c["cookies"] = {"ck": draw(st.text(alphabet="ab1'\"$`!@#&|<>(){}*?~%+:\\", max_size=6))}
-    btype = draw(st.sampled_from(["none", "json", "text", "form"])) if method != "GET" else "none"
+    btype = draw(st.sampled_from(["none", "json", "text", "form", "multipart"])) if method != "GET" else "none"
     if btype == "json":
         c["body"] = draw(st.one_of(SHELLY, st.dictionaries(SHELLY, SHELLY, max_size=2), st.lists(SHELLY, max_size=2)))
         c["media_type"] = "application/json"
@@ -56,6 +58,9 @@ def explicit_case(draw):
     elif btype == "form":
         c["body"] = draw(st.dictionaries(st.text(alphabet="ab@$'", min_size=1, max_size=3), SHELLY, max_size=2))
         c["media_type"] = "application/x-www-form-urlencoded"
+    elif btype == "multipart":
+        c["body"] = draw(st.dictionaries(st.sampled_from(["a", "b", "file"]), SHELLY, min_size=1, max_size=2))
+        c["media_type"] = "multipart/form-data"
     # output sanitisation on and credentials in the base URL: only the redacted values may differ in the printed command
     if draw(st.integers(0, 3)) == 0:
         c["userinfo"] = draw(st.sampled_from(["usr:pw", "usr:p%40ss", "admin:s3cret"]))
@@ -71,7 +76,7 @@ def _schema(url, sanitize=False):
 
     if _state.get("url") != (url, sanitize):
         params = [{"name": "q", "in": "query", "schema": {"type": "string"}}, {"name": "id", "in": "path", "required": True, "schema": {"type": "string"}}, {"name": "X-H", "in": "header", "schema": {"type": "string"}}, {"name": "ck", "in": "cookie", "schema": {"type": "string"}}]
-        body = {"content": {"application/json": {"schema": {}}, "text/plain": {"schema": {"type": "string"}}, "application/x-www-form-urlencoded": {"schema": {"type": "object"}}}}
+        body = {"content": {"application/json": {"schema": {}}, "text/plain": {"schema": {"type": "string"}}, "application/x-www-form-urlencoded": {"schema": {"type": "object"}}, "multipart/form-data": {"schema": {"type": "object", "properties": {"a": {"type": "string"}, "b": {"type": "string"}, "file": {"type": "string"}}}}}}
         doc = {"openapi": "3.0.2", "info": {"title": "t", "version": "1"}, "paths": {"/u/{id}": {m: {"parameters": params, **({"requestBody": body} if m != "get" else {}), "responses": {"200": {"description": "ok"}}} for m in ("get", "post", "put", "delete", "patch")}}}
         _state["schema"] = schemathesis.openapi.from_dict(doc).configure(base_url=url, output=OutputConfig(sanitize=sanitize))
         _state["url"] = (url, sanitize)
@@ -80,7 +85,18 @@ def _schema(url, sanitize=False):
 
 def normalise(rec, explicit_content_type: bool):
     headers = sorted((k.lower(), v) for k, v in rec.headers if k.lower() not in ADDED and not (k.lower() == "content-type" and not explicit_content_type))
-    return {"method": rec.method, "target": rec.target, "headers": headers, "body": rec.body.decode("latin-1")}
+    body = rec.body.decode("latin-1")
+    ct = rec.header("Content-Type") or ""
+    if ct.lower().startswith("multipart/"):
+        # the boundary is chosen anew for every encoding: compare the parts, each payload read under the boundary its own header names
+        from vfw.props.c06 import parse_multipart
+
+        headers = [(k, re.sub(r"boundary=[^;]+", "boundary=<B>", v) if k == "content-type" else v) for k, v in headers]
+        try:
+            body = "multipart:" + json.dumps(sorted(parse_multipart(ct, rec.body)))
+        except Exception as exc:  # noqa: BLE001 - not a multipart payload under its own boundary
+            body = f"multipart:UNPARSEABLE-UNDER-ITS-OWN-BOUNDARY ({exc})"
+    return {"method": rec.method, "target": rec.target, "headers": headers, "body": body}
 
 
 def run_curl(command: str):
@@ -368,6 +384,6 @@ FLOOR = {"explicit": 1500, "python_api": 800, "engine:runs-with-reported-failure
 MANIFEST = {
     "category": "exploration",
     "technique": "executed differential: the reproduction command is run with /bin/sh + curl against a recording loopback server and compared with the original request (explicit adversarial cases + failures reported by real engine runs)",
-    "text": "Explicit cases for every method with shell- and curl-significant characters in path / query / header / cookie values and JSON / text / form bodies are sent, their curl command is generated exactly as the reporters do, executed with sh and curl 7.88 and the two recorded requests are compared (method, raw target, body bytes, header multiset minus client-added headers). Engine level: fuzzing / coverage / stateful runs with and without configured credentials against a misbehaving API; the code sample of every reported failure (including failures of derived cases such as ignored_auth probes) is executed and compared with the request the API actually received for that case id.",
+    "text": "Explicit cases for every method with shell- and curl-significant characters in path / query / header / cookie values and JSON / text / form / multipart bodies are sent, their curl command is generated exactly as the reporters do, executed with sh and curl 7.88 and the two recorded requests are compared (method, raw target, body bytes, header multiset minus client-added headers). Engine level: fuzzing / coverage / stateful runs with and without configured credentials against a misbehaving API; the code sample of every reported failure (including failures of derived cases such as ignored_auth probes) is executed and compared with the request the API actually received for that case id.",
     "note": "Trusts curl and sh as reference; ASCII header values and text payloads only (as the statement); sanitisation disabled.",
 }
